@@ -213,9 +213,15 @@ def _rulefile(ctx):
         blocks = _match_blocks(parse, rname)
         ctx.require(blocks, 'parser branch of %s' % rname)
         for blk in blocks:
+            # the parsed fields: whatever local holds <match>.groupdict()
+            dnames = set(
+                N.txt(st.targets[0]) for st in ast.walk(blk)
+                if isinstance(st, ast.Assign) and len(st.targets) == 1 and
+                isinstance(st.value, ast.Call) and
+                K.is_meth(st.value, 'groupdict')) or {'data'}
             for sub in ast.walk(blk):
                 if isinstance(sub, ast.Subscript) and \
-                        N.txt(sub.value) == 'data' and \
+                        N.txt(sub.value) in dnames and \
                         isinstance(sub.slice, ast.Constant):
                     consumed.add(sub.slice.value)
                 if isinstance(sub, ast.keyword):
@@ -226,7 +232,7 @@ def _rulefile(ctx):
                     continue
                 keys = set(leaf.slice.value for leaf in ast.walk(sub.value)
                            if isinstance(leaf, ast.Subscript) and
-                           N.txt(leaf.value) == 'data' and
+                           N.txt(leaf.value) in dnames and
                            isinstance(leaf.slice, ast.Constant))
                 if not keys:
                     continue
@@ -673,7 +679,8 @@ def _payload(ctx):
     ctx.require(pay is not None and get is not None,
                 'zkutils._payload / get_with_metadata')
     src = ast.unparse(pay.node)
-    ctx.ob('C15.4', pay, None, 'json.dumps(data' in src and
+    ctx.ob('C15.4', pay, None,
+           'json.dumps(%s' % pay.params()[0] in src and
            '.encode()' in src,
            'objects that are not strings/bytes are serialised with '
            'json.dumps', construct='_payload serialiser')
@@ -817,12 +824,21 @@ def _ldap(ctx):
     for name in ('_entry_2_dict', '_dict_2_entry'):
         func = mod.functions.get(name)
         ctx.require(func is not None, name)
-        src = ast.unparse(func.node)
-        conv[name] = {
-            'list': 'isinstance(field_type, list)' in src,
-            'bool': 'field_type is bool' in src,
-            'dict': 'field_type is dict' in src,
-        }
+        # the tag tests, on whatever the tag local is called: one and the
+        # same expression is tested with isinstance(.., list), is bool and
+        # is dict
+        tests = {'list': set(), 'bool': set(), 'dict': set()}
+        for sub in K.walk_no_nested(func.node):
+            if isinstance(sub, ast.Call) and \
+                    K.callee_text(sub) == 'isinstance' and \
+                    len(sub.args) == 2 and N.txt(sub.args[1]) == 'list':
+                tests['list'].add(N.txt(sub.args[0]))
+            if isinstance(sub, ast.Compare) and len(sub.ops) == 1 and \
+                    isinstance(sub.ops[0], (ast.Is, ast.Eq)) and \
+                    N.txt(sub.comparators[0]) in ('bool', 'dict'):
+                tests[N.txt(sub.comparators[0])].add(N.txt(sub.left))
+        common = tests['list'] & tests['bool'] & tests['dict']
+        conv[name] = {kind: bool(common) for kind in tests}
     ctx.ob('C15.5', mod.functions['_dict_2_entry'], None,
            conv['_entry_2_dict'] == conv['_dict_2_entry'] and
            all(conv['_dict_2_entry'].values()),
